@@ -652,7 +652,11 @@ impl HasName for Entry {
     fn storage_type(&self) -> StorageType {
         match StorageType::from_u8((self.stor_len_nibs & 0xf0) >> 4) {
             Some(t) => t,
-            _ => panic!("encountered unknown storage type")
+            _ => {
+                // a damaged entry: it names no file that can be read
+                log::warn!("encountered unknown storage type {}",(self.stor_len_nibs & 0xf0) >> 4);
+                StorageType::Inactive
+            }
         }
     }
 }
@@ -667,7 +671,11 @@ impl HasName for VolDirHeader {
     fn storage_type(&self) -> StorageType {
         match StorageType::from_u8((self.stor_len_nibs & 0xf0) >> 4) {
             Some(t) => t,
-            _ => panic!("encountered unknown storage type")
+            _ => {
+                // a damaged entry: it names no file that can be read
+                log::warn!("encountered unknown storage type {}",(self.stor_len_nibs & 0xf0) >> 4);
+                StorageType::Inactive
+            }
         }
     }
 }
@@ -682,7 +690,11 @@ impl HasName for SubDirHeader {
     fn storage_type(&self) -> StorageType {
         match StorageType::from_u8((self.stor_len_nibs & 0xf0) >> 4) {
             Some(t) => t,
-            _ => panic!("encountered unknown storage type")
+            _ => {
+                // a damaged entry: it names no file that can be read
+                log::warn!("encountered unknown storage type {}",(self.stor_len_nibs & 0xf0) >> 4);
+                StorageType::Inactive
+            }
         }
     }
 }
